@@ -80,7 +80,7 @@ def gen_src():
     rc, out, err = sh('%s/tools/rs2coq/run.sh' % VERIF, timeout=1200)
     if rc != 0:
         raise PrepareError('rs2coq', 'the Rust-to-Gallina translator could not translate /repo/src (exit %d): %s' % (rc, (out + err)[-1500:]))
-    _prepared['src'] = (out + err).strip().split('\n')[-1]
+    _prepared['src'] = ' | '.join(l for l in (out + err).strip().split('\n') if l.startswith('rs2coq'))[-600:]
     return _prepared['src']
 
 
